@@ -39,6 +39,33 @@ QUERIES = ["$..*", "$..[?@]", "$..a", "$..[0]", "$..[*, 0]", "$[*]", "$.*", "$[?
            "$[*, *]", "$..[?@.a]", "$.*[*]", "$..[-1]", "$..[::-1]", "$[?@ > 0].*" if False else "$[?@].*"]
 
 
+SINGLE_SEGMENT = ["$..*", "$..[?@]", "$..a", "$..[0]", "$..[*, 0]", "$[*]", "$.*", "$[?@]", "$..[?@ == 0]", "$..[0, 'a']", "$..[-1]"]
+
+
+def allowed_upper_bound(doc) -> int:
+    """An upper bound on the number of results RFC 9535 permits for a one-segment query on doc:
+    n! / prod(subtree sizes) visit orders (array order only lowers it) x member permutations."""
+    import math  # noqa: PLC0415
+
+    sizes = []
+    perms = 1
+
+    def size(v):
+        nonlocal perms
+        kids = list(v.values()) if isinstance(v, dict) else (v if isinstance(v, list) else [])
+        if isinstance(v, dict):
+            perms *= math.factorial(len(kids))
+        n = 1 + sum(size(x) for x in kids)
+        sizes.append(n)
+        return n
+
+    n = size(doc)
+    bound = math.factorial(n)
+    for sz in sizes:
+        bound //= sz
+    return bound * perms
+
+
 def outputs_of(jp, env, q, doc, cap):
     c = env.compile(q)
 
@@ -103,6 +130,9 @@ def run(chk: core.Check, tier: str, seed: int) -> None:
     total_runs = 0
     for d in docs:
         ed = core.enc_value(d)
+        if allowed_upper_bound(d) > 20000:
+            chk.skipped += 1
+            continue
         for q in (QUERIES if (tier != "quick" or d in WITNESSES[:8]) else rng.sample(QUERIES, 5)):
             results, complete, runs = outputs_of(jp, env, q, d, cap)
             total_runs += runs
@@ -114,9 +144,16 @@ def run(chk: core.Check, tier: str, seed: int) -> None:
                          "outputs": [[core.enc_loc(loc) for loc in o] for o in outs]})
     # larger documents: seeded outcomes, validity only
     n_big = 60 if tier == "quick" else 3000
-    for k in range(n_big):
+    k = -1
+    made = 0
+    while made < n_big:
+        k += 1
         d = gen.rand_doc(rng, depth=3, width=3, names=["a", "b", "c"], p_container=0.75)
-        q = rng.choice(QUERIES)
+        # TLC enumerates the permitted results as a set: keep it enumerable
+        if allowed_upper_bound(d) > 3000:
+            continue
+        made += 1
+        q = rng.choice(SINGLE_SEGMENT)
         c = env.compile(q)
         outs = set()
         for s in range(12):
